@@ -484,6 +484,24 @@ def str_split (s sep : PyVal) : M PyVal :=
   | .str _, _ => throw typeError
   | _, _ => throw attributeError
 
+/-- `s.split(c)` for a one-character separator with `maxsplit` -/
+def splitOnMax (c : Nat) : Nat → Str → List Str
+  | 0, s => [s]
+  | _ + 1, [] => [[]]
+  | n + 1, x :: xs =>
+    if x == c then [] :: splitOnMax c n xs
+    else match splitOnMax c (n + 1) xs with
+      | [] => [[x]]
+      | p :: ps => (x :: p) :: ps
+
+/-- `s.split(sep, maxsplit)` for a one-character separator and `maxsplit ≥ 0` -/
+def str_split_max (s sep n : PyVal) : M PyVal :=
+  match s, sep, n with
+  | .str s, .str [c], .int k => if k < 0 then throw "PyRtUnsupported" else pure (.list ((splitOnMax c k.toNat s).map .str))
+  | .str _, .str _, .int _ => throw "PyRtUnsupported"
+  | .str _, _, _ => throw typeError
+  | _, _, _ => throw attributeError
+
 /-- `str(v)` for the values an f-string of the selected functions formats -/
 def format : PyVal → M Str
   | .str s => pure s
@@ -540,6 +558,10 @@ def className : PyVal → String
   | .none => "NoneType" | .bool _ => "bool" | .int _ => "int" | .str _ => "str"
   | .list _ => "list" | .tuple _ => "tuple" | .iter _ => "iterator"
   | .negInf => "NegativeInfinityType" | .posInf => "InfinityType"
+
+/-- `isinstance(v, (C1, C2, …))` by class name; `bool` is a subclass of `int` -/
+def isinstance (v : PyVal) (classes : List String) : Bool :=
+  classes.contains (className v) || (classes.contains "int" && className v == "bool")
 
 /-- `assert c` -/
 def assert_ (c : PyVal) : M Unit := if truthy c then pure () else throw assertionError
